@@ -1759,3 +1759,119 @@ def gen_dom_parser_fields():
     out += "def scanResetAnnounces : List (String × Bool) := [%s]\n\n" % ", ".join('("%s", %s)' % (n, "true" if b else "false") for n, b in sites)
     out += "end XV.Gen.DomParserFields\n"
     return out
+
+
+# ------------------------------------------------------------------ C15: parser-class field / assignment sets
+PARSER_SETTER_RE = re.compile(r"^(set\w+|use\w+|install\w+|remove\w+|cacheGrammarFromParse)$")
+
+@translate.register("ParserFields")
+def gen_parser_fields():
+    """Data members of AbstractDOMParser / XercesDOMParser / DOMLSParserImpl / SAXParser / SAX2XMLReaderImpl and where each is
+    assigned (constructor / the reset events resetDocument()+resetDocType() and their same-object callees / public setters / any
+    other method) - from the clang AST - plus the hand-reviewed classification tools/c15_parser_fields.json, as Lean data."""
+    import scanner_ast as sa
+    try:
+        d = sa.extract_parsers()
+    except sa.AstError as e:
+        raise TranslateError("ParserFields: " + str(e))
+    rev_path = _os.path.join(_os.path.dirname(_os.path.abspath(__file__)), "c15_parser_fields.json")
+    try:
+        rev = _json.load(open(rev_path))
+    except (OSError, ValueError) as e:
+        raise TranslateError("ParserFields: cannot read c15_parser_fields.json: %s" % e)
+    base = d["AbstractDOMParser"]
+    names = sorted({f for c in d.values() for f in c["fields"]})
+    ident = {n: i for i, n in enumerate(names)}
+    def ids(xs, universe):
+        return sorted({ident[x] for x in xs if x in ident and x in universe})
+    def L(xs):
+        return "[" + ", ".join(str(i) for i in xs) + "]"
+    out = [HEADER.rstrip("\n"),
+           "-- from clang++-14 -ast-dump=json over src/xercesc/parsers/{AbstractDOMParser,XercesDOMParser,DOMLSParserImpl,SAXParser,SAX2XMLReaderImpl}.{hpp,cpp}",
+           "-- and tools/c15_parser_fields.json",
+           "namespace XV.Gen.ParserFields", "",
+           "structure PClassInfo where",
+           "  name : String",
+           "  fields : List Nat              -- data members, own and inherited from AbstractDOMParser (ids index fieldNames)",
+           "  ctorInit : List Nat            -- constructor initialiser lists, constructor bodies, initialize()",
+           "  resetAssigned : List Nat       -- assigned in resetDocument()/resetDocType() or a same-object method they call",
+           "  resetCalled : List Nat         -- re-initialised there through reset*/removeAll*/clear*/flush* member calls",
+           "  entryReset : List Nat          -- cleared that way at the start of EVERY parse entry point (parse/parseURI/parseWithContext)",
+           "  setterAssigned : List Nat      -- assigned by a public set*/use*/install*/remove*/cacheGrammarFromParse",
+           "  otherAssigned : List Nat       -- assigned by any other method (callbacks, parse, ...)",
+           "  configFields : List Nat        -- reviewed classification (tools/c15_parser_fields.json), restricted to this class",
+           "  perParseFields : List Nat",
+           "  scratchFields : List Nat",
+           "  knownReinitialisedElsewhere : List Nat",
+           "  configWrittenElsewhere : List Nat",
+           "", "def fieldNames : List String := [" + ", ".join('"%s"' % n for n in names) + "]", ""]
+    cls_names = []
+    for cls in ("XercesDOMParser", "DOMLSParserImpl", "SAXParser", "SAX2XMLReaderImpl"):
+        c = d[cls]
+        isdom = "AbstractDOMParser" in c["bases"]
+        owners = ([base] if isdom else []) + [c]
+        fields = [f for o in owners for f in o["fields"]]
+        if len(set(fields)) != len(fields):
+            raise TranslateError("ParserFields: %s redeclares an inherited member" % cls)
+        fset = set(fields)
+        def lookup(m):
+            return c["methods"].get(m) or (base["methods"].get(m) if isdom else None)
+        if not lookup("resetDocument"):
+            raise TranslateError("ParserFields: %s::resetDocument not found" % cls)
+        seen, todo, A, C, calls = set(), ["resetDocument", "resetDocType"], set(), set(), set()
+        while todo:
+            m = todo.pop()
+            if m in seen:
+                continue
+            seen.add(m)
+            f = lookup(m)
+            if not f:
+                continue
+            A |= set(f["assigned"]); C |= set(f["touched"])
+            for fld, meth in f["called"]:
+                if RESET_CALL_RE.match(meth):
+                    C.add(fld); calls.add("%s.%s" % (fld, meth))
+            todo += list(f["selfcalls"])
+        entry = None
+        if cls == "DOMLSParserImpl":
+            for m in ("parse", "parseURI", "parseWithContext"):
+                f = c["methods"].get(m)
+                if not f:
+                    raise TranslateError("ParserFields: DOMLSParserImpl::%s not found" % m)
+                e = {fld for fld, meth in f["called"] if RESET_CALL_RE.match(meth)}
+                entry = e if entry is None else entry & e
+        ctor, setter, other = set(), set(), set()
+        for o in owners:
+            for m, f in o["methods"].items():
+                if m in ("<ctor>", "initialize"):
+                    ctor |= set(f["assigned"])
+                elif m in ("<dtor>", "cleanUp") or m in seen:
+                    continue
+                elif PARSER_SETTER_RE.match(m) and m in o["public_methods"]:
+                    setter |= set(f["assigned"])
+                else:
+                    other |= set(f["assigned"])
+        else_ = dict(rev["elsewhere"].get("*", {})); else_.update(rev["elsewhere"].get(cls, {}))
+        cwe = dict(rev["configWrittenElsewhere"].get("*", {})); cwe.update(rev["configWrittenElsewhere"].get(cls, {}))
+        cls_names.append(cls)
+        out.append("-- %s: reset closure = %s; reset calls = %s" % (cls, ", ".join(sorted(seen)), ", ".join(sorted(calls))))
+        out.append("def %s : PClassInfo where" % cls)
+        out.append('  name := "%s"' % cls)
+        out.append("  fields := " + L(ids(fields, fset)))
+        out.append("  ctorInit := " + L(ids(ctor, fset)))
+        out.append("  resetAssigned := " + L(ids(A, fset)))
+        out.append("  resetCalled := " + L(ids(C, fset)))
+        out.append("  entryReset := " + L(ids(entry or [], fset)))
+        out.append("  setterAssigned := " + L(ids(setter, fset)))
+        out.append("  otherAssigned := " + L(ids(other, fset)))
+        out.append("  configFields := " + L(ids(rev["config"], fset)))
+        out.append("  perParseFields := " + L(ids(rev["perParse"], fset)))
+        out.append("  scratchFields := " + L(ids(rev["scratch"], fset)))
+        out.append("  knownReinitialisedElsewhere := " + L(ids(else_, fset)))
+        out.append("  configWrittenElsewhere := " + L(ids(cwe, fset)))
+        out.append("")
+    out.append("def classes : List PClassInfo := [" + ", ".join(cls_names) + "]")
+    out.append("def fieldId (n : String) : Nat := fieldNames.idxOf n")
+    out.append("")
+    out.append("end XV.Gen.ParserFields")
+    return "\n".join(out) + "\n"
